@@ -145,6 +145,8 @@ Judge ==
          /\ (C11_Disjoint(L) \/ Say("VERDICT", "C11", "Disjoint"))
          /\ (C11_Partition(L) \/ Say("VERDICT", "C11", "Partition"))
          /\ ((xs.src \notin opened => C11_Arrived(L, T)) \/ Say("VERDICT", "C11", "Arrived"))
+         /\ (C11_LocalSrcHonest(S, L, T) \/ Say("VERDICT", "C11", "MismatchingObjectHandedOn"))
+         /\ (C11_LocalDstHonest(L, T) \/ Say("VERDICT", "C11", "MismatchingCopyTakenForPresent"))
          /\ ((xs.verify => \A o \in L.transferred : Intact(T, xs.dst, o)) \/ Say("VERDICT", "C11", "ArrivedVerified"))
          /\ (C11_AbsentReported(L, T) \/ Say("VERDICT", "C11", "AbsentReported"))
          /\ (C11_PresentUntouched(L) \/ Say("VERDICT", "C11", "PresentUntouched"))
